@@ -12,7 +12,7 @@
 
     TRUSTED BASE ADDED BY THIS TIE (exactly two things; nothing else is new):
 
-    (1) THE TRANSLATOR, harness/translate/main.go - an unverified Go program (~1000 lines).  It is
+    (1) THE TRANSLATOR, harness/translate/main.go - an unverified Go program (~1500 lines).  It is
         trusted to print the function it read: the statement/expression subset listed in its file
         header, the static type of every expression as reported by go/types (so the typing rules of
         the Go specification, incl. the rule for untyped constant operands of non-constant shifts,
